@@ -52,7 +52,9 @@ where
     if d != T::discriminant_bytes() || pid != <T::OwnerProgram as StarFrameProgram>::ID.to_bytes() {
         return vec![-1];
     }
-    let na = NativeAccount::new([9; 32], owner.clone().try_into().unwrap(), 5000, &data, false, wr, false);
+    // the balance rides in the can-borrow code (state the admission decision must not depend on)
+    let lamports: u64 = if c[66 + w] > 0 { match ((c[66 + w] - 1) / 2) % 4 { 0 => 5000, 1 => 0, 2 => u64::MAX, _ => 1 } } else { 5000 };
+    let na = NativeAccount::new([9; 32], owner.clone().try_into().unwrap(), lamports, &data, false, wr, false);
     let info = na.info();
     let account: Account<T> = unsafe { std::mem::transmute_copy(&info) };
     if cl {
